@@ -3,6 +3,7 @@ package main
 import (
 	"fmt"
 	nurl "net/url"
+	"regexp"
 	"strings"
 )
 
@@ -22,10 +23,13 @@ type Pager struct {
 }
 
 func canonURL(u *nurl.URL) string {
-	p := u.Path
+	// the escaped path: /a%2Fb and /a/b are different resources
+	p := rxPctHex.ReplaceAllStringFunc(u.EscapedPath(), strings.ToUpper)
 	p = strings.TrimRight(p, "/")
 	return strings.ToLower(u.Scheme) + "://" + strings.ToLower(u.Host) + "|" + p + "|" + u.RawQuery
 }
+
+var rxPctHex = regexp.MustCompile(`%[0-9a-fA-F]{2}`)
 
 func canonStr(s string) string {
 	u, err := nurl.Parse(s)
@@ -216,11 +220,19 @@ var hostilePages = []string{
 	"http://example.com/story/alpha/2.html", "http://example.com/story/alpha/page2.html", "http://example.com/story/b",
 	"http://example.com/caf%C3%A9/article", "http://example.com/a%20b/story?page=2", "http://example.com/caf%C3%A9/article/page/2/", "http://example.com/story/alpha%2Fbeta?page=1",
 	"http://example.com", "http://example.com?page=2",
+	// page URLs that are not web addresses: no link can be "an absolute http(s) URL on the same host"
+	"/story/alpha/page/1", "http:///story/alpha/page/1", "file:///story/alpha/page/1", "story/alpha?page=1",
 }
 
 func hostileHref(r *RNG, n int, u *nurl.URL) string {
 	host := u.Host
-	switch r.Intn(30) {
+	switch r.Intn(33) {
+	case 30:
+		return []string{" ", "\n", "\t \n"}[n%3] // only white space: the empty reference, i.e. the page itself
+	case 31:
+		return fmt.Sprintf(" /story/alpha/page/%d\n", n) // white space around a URL is not part of it
+	case 32:
+		return fmt.Sprintf("\t?page=%d ", n)
 	case 0:
 		return fmt.Sprintf("javascript:go(%d)", n)
 	case 1:
@@ -287,7 +299,7 @@ func hostileHref(r *RNG, n int, u *nurl.URL) string {
 	}
 }
 
-const nHostileFams = 22
+const nHostileFams = 26
 
 func famHostile(fam, n int, u *nurl.URL) string {
 	host := u.Host
@@ -339,6 +351,15 @@ func famHostile(fam, n int, u *nurl.URL) string {
 		return fmt.Sprintf("//%s/story/alpha/page/%d", strings.ToUpper(host), n)
 	case 20:
 		return fmt.Sprintf("page%d.html", n)
+	// reserved characters percent-encoded in the path: decoding them names another resource
+	case 22:
+		return fmt.Sprintf("/tag/AC%%2FDC/page/%d", n)
+	case 23:
+		return fmt.Sprintf("/100%%25/page/%d", n)
+	case 24:
+		return fmt.Sprintf("/q%%3Fa/story%%23b/%d", n)
+	case 25:
+		return fmt.Sprintf("/a%%2Fb/story?page=%d", n)
 	default:
 		return fmt.Sprintf("/story/alpha/page/%d?ref=nav#top", n)
 	}
